@@ -178,6 +178,27 @@ def whitespace(rnd, thorough):
     return sorted(set(out))
 
 
+def literal_spacing():
+    """value and type literals (what `Variable::from_str` / `Type::from_str` read, also valid program text) with every gap
+    between two tokens - also the one after a sign, where the text has no blank - filled with white space the grammar
+    skips: a tab, a line break, a comment"""
+    import re
+    forms = ["-1.5", "-7", "- 2.5e3", "[1, -2.5, (3, -4)]", "(1, -2.0, -0x1F)", "struct{a := -1.5, b := [-1]}", '("s", -0.0)', "[-1_000, -0b101]",
+             "() -> int", "[int|float]", "mut (int, string)", "struct{a: int, b: [float]}", "(int, () -> (bool, int))", "mut [int]|string",
+             '[[], [()], ([-1.0],)]', "-inf", "- NaN", "true", '"a\tb"']
+    tok = re.compile(r'"(?:\\.|[^"\\])*"|[A-Za-z_0-9.]+|->|:=|[^\sA-Za-z_0-9]')
+    out = []
+    for f in forms:
+        ts = tok.findall(f)
+        out.append(f)
+        for sub in ("\t", "\n", "/* c */", " ", " // c\n", "\r\n"):
+            out.append(sub.join(ts))
+            for i in range(1, len(ts)):
+                out.append(" ".join(ts[:i]) + sub + " ".join(ts[i:]))
+                out.append("".join(ts[:i]) + sub + "".join(ts[i:]))
+    return sorted(set(out))
+
+
 def docs(base):
     os.makedirs(base, exist_ok=True)
     files = {"good.ssl": "x := 5; f := (a: int) -> int { return a + x; }", "syntax.ssl": "x := := 5", "types.ssl": "x := 1 + \"a\"",
@@ -277,7 +298,7 @@ def run(res, tier, seed, broken_model):
     base = os.path.join(CACHE, "c03-scratch", str(os.getpid()))
     shutil.rmtree(base, ignore_errors=True)
     streams = [("matrix", matrix(rnd, thorough), "c"), ("constants", constants(rnd, thorough), "c"), ("docs", docs(base), "a"),
-               ("names", name_coincidences(), "c"),
+               ("names", name_coincidences(), "c"), ("literal-spacing", literal_spacing(), "a"),
                ("whitespace", None, "a"), ("tokens", token_sequences(rnd, thorough), "a"), ("text", texts(rnd, seed, thorough), "a")]
     total = {}
     for name, progs, which in streams:
